@@ -435,7 +435,14 @@ func (ex *Exchange[H]) request(
 	ctx context.Context,
 	to peer.ID,
 	req *p2p_pb.HeaderRequest,
-) ([]H, error) {
+) (_ []H, err error) {
+	// a response must not be able to crash the client: header decoding and validation are
+	// implemented by the user of the library and run here on untrusted bytes
+	defer func() {
+		if r := recover(); r != nil {
+			err = fmt.Errorf("PANIC processing responses: %s", r)
+		}
+	}()
 	log.Debugw("requesting peer", "peer", to)
 	start := time.Now()
 	responses, size, err := sendMessage(ctx, ex.host, to, ex.protocolID, req)
